@@ -197,6 +197,19 @@ def several_success_codes():
                           "delete": {"operationId": "cancelJob", "responses": {"204": {"description": "cancelled"}, "200": jresp(R("Job"))}}}})
 
 
+def tag_spellings():
+    """one tag spelled in ways that split into words differently, on operations in different path items (plainer spelling first)"""
+    ok = {"204": {"description": "done"}}
+    return doc("Hooks", {"Hook": {"type": "object", "properties": {"url": {"type": "string"}}}}, {
+        "/hooks": {"get": {"operationId": "listHooks", "tags": ["webhooks"], "responses": {"200": jresp({"type": "array", "items": R("Hook")})}}},
+        "/hooks/{id}": {"parameters": [{"name": "id", "in": "path", "required": True, "schema": {"type": "integer"}}],
+                        "delete": {"operationId": "deleteHook", "tags": ["WebHooks"], "responses": ok}},
+        "/hooks/{id}/ping": {"parameters": [{"name": "id", "in": "path", "required": True, "schema": {"type": "integer"}}],
+                             "post": {"operationId": "pingHook", "tags": ["web-hooks"], "responses": ok}},
+        "/status": {"get": {"operationId": "getStatus", "responses": ok}},
+        "/version": {"get": {"operationId": "getVersion", "tags": ["Default"], "responses": ok}}})
+
+
 REP = {
     "petstore": petstore,
     "unions": enums_and_unions,
@@ -208,6 +221,7 @@ REP = {
     "promoted": promoted_name_collisions,
     "shared_params": shared_component_parameters,
     "multi2xx": several_success_codes,
+    "tag_spellings": tag_spellings,
     "no_ops": no_operations,
     "no_schemas": no_schemas,
 }
